@@ -68,14 +68,14 @@ FramedOuts(fx, iomap) ==
 \* classification by behaviour, not by name: a matcher maps a string to a boolean without effects;
 \* a printer applied to a string writes
 ProbeFile == [NoFile EXCEPT !.name = <<120>>, !.relpath = <<120>>]
-ClassOf(v) ==
+ClassOf(v, genv) ==
   IF IsV(v, "port") THEN "port" ELSE IF IsV(v, "mutex") THEN "mutex" ELSE IF IsV(v, "printer") THEN "printer"
   ELSE IF IsV(v, "clo") /\ Len(v.clo.ps) = 1 THEN
-     LET r == Apply(v, <<VStr(<<120>>)>>, [file |-> ProbeFile], 5000) IN
+     LET r == Apply(v, <<VStr(<<120>>)>>, [file |-> ProbeFile, g |-> genv], 5000) IN
      IF \E i \in 1..Len(r.fx) : r.fx[i].e = "write" THEN "printer"
      ELSE IF IsV(r.v, "bool") /\ r.fx = <<>> THEN "matcher" ELSE "other"
   ELSE "other"
-CountClass(env, c) == Cardinality({i \in 1..Len(env) : ClassOf(env[i][2]) = c})
+CountClass(env, c) == Cardinality({i \in 1..Len(env) : ClassOf(env[i][2], env) = c})
 ResourceKinds(prep, t) ==
   LET m == ManagerFor(t) IN
   (IF CountClass(prep.env, "matcher") # Len(m.matches) THEN <<"matcher-count">> ELSE <<>>)
